@@ -40,7 +40,10 @@ const ownedMissing = "https://l.example/n/404"
 const followBob = "https://l.example/f/bob"   // stored, but it is Bob's Follow
 const followNone = "https://l.example/f/none" // not stored at all
 
+const remoteArticle = "https://r1.example/n/article"
+
 func c04world(a *ap.App) {
+	a.PutRemote(remoteArticle, Doc("Article", remoteArticle, "attributedTo", Carol, "name", "a title", "summary", "content warning", "to", L{Public}, "tag", Emb("Hashtag", "", "name", "#x")))
 	// the stored Follow names two followed actors (Carol and Dave); Erin was never followed
 	a.PutDoc(Doc("Follow", Follow1, "actor", Alice, "object", L{Carol, Dave}))
 	a.PutRemote(Follow1, Doc("Follow", Follow1, "actor", Alice, "object", L{Carol, Dave}))
@@ -351,7 +354,9 @@ func c04cases(thorough bool) []c04case {
 			cs = append(cs, c04case{typ: typ, body: body, onFollow: of, cb: cb})
 		}
 	}
-	for _, objs := range combos([]interface{}{rn(10), rn(11), RNote, iriMissing}, maxN) {
+	// (two more fetchable IRIs whose documents have members the others lack: what is stored for one
+	// object must not depend on what was fetched for another)
+	for _, objs := range combos([]interface{}{rn(10), rn(11), RNote, iriMissing, RNote2, remoteArticle}, maxN) {
 		add("Create", Doc("Create", RAct, "actor", Carol, "object", val(objs)), 0)
 	}
 	for _, objs := range combos([]interface{}{rn(10, "content", "edited"), rn(11), Emb("Note", cachedForeign, "content", "updated cached")}, maxN) {
